@@ -27,8 +27,8 @@ def HC(name, macro, what, nl_q, nl_t, tq, tt):
                             'signature verified over the transaction\'s own hash/key, sender address derived from that key, Merkle path proves the transaction id against the Merkle root of the carried header '
                             '(independent fold; node hash = uninterpreted collision-free function), ' + ('publication data names this altchain and the endorsed header is authenticated against the top-level root of the carried context info' if macro == 'MODE_ATV' else 'the BTC transaction embeds the 80 publication bytes, BTC context headers are contiguous and meet their PoW'),
                             'the memoised `checked` flag is set exactly by a successful full check; a repeated check gives the same verdict'],
-            'rungs': {'quick': [{'defines': ['NLAYERS=%d' % nl_q], 'bound': 'Merkle paths of 0..%d symbolic 256-bit layers, 3-bit symbolic index, symbolic tree selector, symbolic subject/root/transaction ids; crypto leaves (SHA-256 node hash, tx ids, secp256k1 verify, address derivation, altchain header check) replaced by symbolic oracles at link level' % nl_q, 'timeout': tq}],
-                      'thorough': [{'defines': ['NLAYERS=%d' % nl_t], 'bound': 'Merkle paths of 0..%d layers' % nl_t, 'timeout': tt}]}}
+            'rungs': {'quick': [{'defines': ['NLAYERS=%d' % nl_q, 'HB=8'], 'bound': 'Merkle paths of 0..%d layers; every 256-bit hash value (ids, layers, roots, node hashes) has 8 symbolic bytes and 24 zero bytes; 3-bit symbolic index, symbolic tree selector, symbolic subject/root/transaction ids; crypto leaves (SHA-256 node hash, tx ids, secp256k1 verify, address derivation, altchain header check) replaced by symbolic oracles at link level' % nl_q, 'timeout': tq}],
+                      'thorough': [{'defines': ['NLAYERS=%d' % nl_t, 'HB=16'], 'bound': 'Merkle paths of 0..%d layers, 16 symbolic bytes per hash value' % nl_t, 'timeout': tt}]}}
 
 
 HARNESSES += [
